@@ -1319,7 +1319,7 @@ static void run_case(const std::vector<std::string> &w, hv::out &o)
 // ---------------------------------------------------------------------------
 // worker process / supervisor
 // ---------------------------------------------------------------------------
-extern "C" const char *__tsan_default_options() { return "atexit_sleep_ms=0"; }
+extern "C" __attribute__((no_sanitize("thread"))) const char *__tsan_default_options() { return "atexit_sleep_ms=0"; } // not instrumented: it runs while the TSan runtime is still initialising (an -O0 build, bin/cov, crashed here)
 
 static void worker_loop(int in_fd)
 {
